@@ -16,7 +16,7 @@ from ..core import AnalysisError, Report, Repo
 from ..optable import FUNCTIONAL, PUBLIC_FUNCTIONS, Case, Summary, make_case, summarise
 from ..oracle import oracle_function, std_globals
 from ..schemas import O, P
-from ..values import BOTTOM, ExtV, FuncV, Gamma, T, TV, Unknown, fmt
+from ..values import BOTTOM, ExtV, FuncV, Gamma, Obj, T, TV, Unknown, fmt
 
 DOCS = "unit_scaling/docs.py"
 
@@ -198,22 +198,45 @@ def check_docs(report: Report, repo: Repo) -> None:
                 report.add("R5-guard", f"{cons}::passes[{name}]", ok, "accepted calls must reach the wrapped function exactly once, unchanged", f"{fmt(got)} raises={raised}", "relu(x)", nontrivial=False)
     except Unsupported as e:
         report.add("R5-guard", cons, None, f"outside fragment: {e}")
-    # (2) both decorators thread unsupported_args into _validate
-    for dec, how in (("docstring_from", "return"), ("inherit_docstring", "init")):
-        node = mod.need(dec)
-        inner = [n for n in ast.walk(node) if isinstance(n, ast.FunctionDef) and n is not node]
-        found = False
-        for fn_ in inner:
-            for c in ast.walk(fn_):
-                if isinstance(c, ast.Call) and isinstance(c.func, ast.Name) and c.func.id == "_validate":
-                    argnames = [a.id for a in c.args if isinstance(a, ast.Name)] + [k.value.id for k in c.keywords if isinstance(k.value, ast.Name)]
-                    if "unsupported_args" in argnames:
-                        par = getattr(c, "_parent", None)
-                        if how == "return" and isinstance(par, ast.Return):
-                            found = True
-                        if how == "init" and isinstance(par, ast.Assign) and any(isinstance(t, ast.Attribute) and t.attr == "__init__" for t in par.targets):
-                            found = True
-        report.add("R5-guard", f"{DOCS}::{dec}", found, f"{dec} must wrap the decorated object with _validate(..., unsupported_args) ({'returned' if how == 'return' else 'installed as __init__'})", "found" if found else "missing", "present", nontrivial=False)
+    # (2) both decorators apply the guard to what they decorate: evaluated on probes
+    probe2_src = (
+        "def probe2(input, inplace=False):\n    return F.relu(input)\n"
+        "class ProbeBase:\n    \"\"\"base doc\"\"\"\n"
+        "class ProbeCls(ProbeBase):\n    def __init__(self, a, sparse=False):\n        self.a = a\n"
+    )
+    g2 = std_globals(it)
+    cons = f"{DOCS}::docstring_from"
+    try:
+        probe2 = oracle_function(it, "probe2", probe2_src, g2)
+        dec = it.call_function(it.get_global(DOCS, "docstring_from"), [ExtV("torch.nn.functional.relu")], {"unsupported_args": ["inplace"]})
+        wrapped = it.call_function(dec, [probe2], {})
+        it.events = []
+        got = it.call_function(wrapped, [x], {"inplace": True})
+        raised = [e["exc"] for e in it.events if e.kind == "raise"]
+        report.add("R5-guard", f"{cons}::rejects", got is BOTTOM and raised == ["ValueError"], "a function decorated with docstring_from(unsupported_args=['inplace']) must raise ValueError for inplace=True", f"{fmt(got)} raises={raised}", "raise ValueError")
+        it.events = []
+        got = it.call_function(wrapped, [x], {})
+        called = [e for e in it.events if e.kind == "call" and e["callee"] == "torch.nn.functional.relu"]
+        raised = [e["exc"] for e in it.events if e.kind == "raise"]
+        report.add("R5-guard", f"{cons}::passes", (not raised) and len(called) == 1 and got is not BOTTOM, "an accepted call reaches the decorated function exactly once", f"{fmt(got)} raises={raised}", "relu(x)", nontrivial=False)
+    except Unsupported as e:
+        report.add("R5-guard", cons, None, f"outside fragment: {e}")
+    cons = f"{DOCS}::inherit_docstring"
+    try:
+        pcls = oracle_function(it, "ProbeCls", probe2_src, g2)
+        dec = it.call_function(it.get_global(DOCS, "inherit_docstring"), [], {"unsupported_args": ["sparse"]})
+        wcls = it.call_function(dec, [pcls], {})
+        it.events = []
+        got = it.call_function(wcls, [1], {"sparse": True})
+        raised = [e["exc"] for e in it.events if e.kind == "raise"]
+        report.add("R5-guard", f"{cons}::rejects", got is BOTTOM and raised == ["ValueError"], "a class decorated with inherit_docstring(unsupported_args=['sparse']) must raise ValueError when constructed with sparse=True", f"{fmt(got)} raises={raised}", "raise ValueError")
+        it.events = []
+        got = it.call_function(wcls, [1], {})
+        raised = [e["exc"] for e in it.events if e.kind == "raise"]
+        ok = (not raised) and isinstance(got, Obj) and TM.expr_equal(got.attrs.get("a"), 1) is True
+        report.add("R5-guard", f"{cons}::passes", ok, "an accepted construction runs the decorated class's __init__", f"{fmt(got)} raises={raised}", "object with a == 1", nontrivial=False)
+    except Unsupported as e:
+        report.add("R5-guard", cons, None, f"outside fragment: {e}")
 
 
 def c01_schema_sets(tier: str) -> List[Tuple[str, Dict[str, List[SC.Schema]]]]:
